@@ -493,10 +493,15 @@ func init() {
 			return runDominatingRestore(c, "PAIR.load-package", "lisp.(*LEnv).load", "lisp.Runtime.Package")
 		}})
 
-	register(&Rule{ID: "LOC.eval-restores", Floor: 1,
-		Doc: "LEnv.Eval — the entry every special operator uses to evaluate one of its sub-forms in its own environment — saves the environment's current location and restores it by a defer that dominates the evaluation: when the sub-form is done the location is the operator's form again, so an operator that then rejects its arguments (cond `argument is not a pair`, let, dotimes, assert) is reported at its own call expression, in agreement with the innermost frame of the trace, not at the last sub-form it evaluated",
+	register(&Rule{ID: "LOC.eval-restores", Floor: 2,
+		Doc: "LEnv.Eval and LEnv.EvalContext — the entry every special operator uses to evaluate one of its sub-forms in its own environment — saves the environment's current location and restores it by a defer that dominates the evaluation: when the sub-form is done the location is the operator's form again, so an operator that then rejects its arguments (cond `argument is not a pair`, let, dotimes, assert) is reported at its own call expression, in agreement with the innermost frame of the trace, not at the last sub-form it evaluated",
 		Run: func(c *Ctx) []Obligation {
-			return runDominatingRestore(c, "LOC.eval-restores", "lisp.(*LEnv).Eval", "lisp.LEnv.loc")
+			// Eval and its context-taking twin: both are "evaluate this one form in this
+			// environment" entry points a host operator (or the debugger, from inside a
+			// running evaluation) can call
+			obs := runDominatingRestore(c, "LOC.eval-restores", "lisp.(*LEnv).Eval", "lisp.LEnv.loc")
+			obs = append(obs, runDominatingRestore(c, "LOC.eval-restores", "lisp.(*LEnv).EvalContext", "lisp.LEnv.loc")...)
+			return obs
 		}})
 
 	register(&Rule{ID: "PAIR.loader-package", Floor: 1,
